@@ -262,7 +262,9 @@ impl<'ast, 'arena> ProgramFacts<'ast, 'arena> {
         }
         self.locals.push(LocalInfo { name, owner, declaring_scope, decl_span, decl_stmt, kind });
         self.scope_locals[declaring_scope.0 as usize].push(id);
-        function.locals_len += 1;
+        // Locals of nested functions are numbered in between, so the range has to reach
+        // from the first to the latest local owned by this function.
+        function.locals_len = id.0 - function.locals_start + 1;
         id
     }
 
@@ -424,7 +426,8 @@ impl<'ast, 'arena> ProgramFacts<'ast, 'arena> {
             .map(|idx| self.user_calls[idx].callee)
     }
 
-    /// Returns the local-id range owned by a function.
+    /// Returns the local-id range that covers every local owned by a function.
+    /// Ids of locals declared by nested functions can fall inside the range.
     #[must_use]
     pub fn local_range(&self, function: FunctionId) -> Range<u32> {
         let info = &self.functions[function.0 as usize];
